@@ -207,7 +207,7 @@ func init() {
 			case "notation":
 				s := cs(k, "s")
 				ys := fmt.Sprintf("%q", s)
-				if strings.Trim(s, "0123456789") == "" && len(s) > 0 && len(s)%2 == 0 {
+				if strings.Trim(s, "0123456789") == "" && len(s) > 0 && (len(s) == 3 || len(s)%2 == 0) {
 					ys = s // an unquoted numeral (YAML would call 011 an octal integer; the notation is decimal)
 				}
 				f := c.writeTemp(fmt.Sprintf("n_%x.yml", s), fmt.Sprintf("- name: X\n  degree: %s\n", ys))
